@@ -529,7 +529,9 @@ func (c *DataCondition) invert() ConditionsSet {
 }
 
 func (c *ImpossibleCondition) invert() ConditionsSet {
-	return ConditionsSet{}
+	// the negation of "never" is "always": one alternative without conditions.
+	// An empty set would be dropped by Or and lose the alternative.
+	return ConditionsSet{Conditions{}}
 }
 
 func (t *queryTerm) QueryConditions(pc *parserContext) (ConditionsSet, error) {
